@@ -518,6 +518,16 @@ def r_guard(f):
                     for o in (st["rv"]["l"], st["rv"]["r"]):
                         if any(x == ("param", 2) for x in walk(d.expr(o))):
                             bad = (st["span"], st["rv"]["op"])
+            if bad:
+                # accepted alternative: a plain product dominated by `idx < self.len()` (the number of remaining cells):
+                # then idx*(1+skip) <= (len-1)*(1+skip) < slice length, which cannot wrap
+                gg = G(b, f)
+                for (gbi, op, lo, ro, ok) in gg.guards():
+                    if op == "Lt" and strip(lo) == ("param", 2) and any(x[0] == "call" and x[2] in ("len", "size_hint") for x in walk(ro)):
+                        mul_blocks = [bi for bi, si, st in b.stmts() if st["k"] == "assign" and st["rv"]["k"] == "binop" and st["span"] == bad[0]]
+                        if all(ok in gg.dom.get(mb, set()) for mb in mul_blocks):
+                            bad = None
+                            break
             checked_index = any(fn and fn["path"] in ("core::ops::Index::index", "core::ops::IndexMut::index_mut") for _, _, fn in b.calls()) or \
                 any(bl["term"] and bl["term"]["k"] == "assert" and bl["term"]["kind"] == "BoundsCheck" for bl in b.blocks)
             RA.inst(b.ident, "idx only enters checked arithmetic and a checked slice index", bad is None and checked_index)
